@@ -21,7 +21,7 @@ RULE = ("random call histories (length 2-12, with repeats) of {expand_macros (+p
 ASSUMPTIONS = ["fingerprint = types, __dict__ contents, container order and aliasing structure of everything reachable from the argument",
                "mutating an *output* and seeing the input change is an observation, not a violation (the docstrings allow sharing)"]
 TIERS = {"quick": {"shards": 8, "budget_s": 50}, "thorough": {"shards": 16, "budget_s": 420}}
-REQUIRE = {"native:partial": 50, "op:expand_subcircuits_custom": 100, "histories": 500, "calls": 4000, "contract-evaluations": 4000, "results-compared-with-fresh": 4000,
+REQUIRE = {"op:used_qubits": 300, "native:partial": 50, "op:expand_subcircuits_custom": 100, "histories": 500, "calls": 4000, "contract-evaluations": 4000, "results-compared-with-fresh": 4000,
            "op:run": 200, "op:parse_output": 200, "op:unit_timing": 200, "chained-calls": 300}
 
 OPS = ["expand_macros", "expand_macros_preserve", "fill_in_let", "fill_in_let_ov", "fill_in_map", "expand_subcircuits",
@@ -201,6 +201,12 @@ def judge(case, rec=None):
         info["compared"] += 1
         if out != exp and "budget" not in (out[0], exp[0]):
             fails.append(("history-dependent-result:" + op, {"fresh": str(exp)[:300], "shared": str(out)[:300], "position": len(results)}))
+        if op == "used_qubits" and out[0] == "ok" and out[1][0] == "used":
+            # independent of any other call in this process: only this circuit's register, only its indices
+            regs = {n: int(r_.size) for n, r_ in shared.registers.items() if not hasattr(r_, "alias_index") and r_.fundamental}
+            foreign = [(k, list(v)) for k, v in out[1][1] if k not in regs or any(not (0 <= i < regs[k]) for i in v)]
+            if foreign:
+                fails.append(("used-qubits-outside-this-circuit", {"registers-of-the-circuit": regs, "reported": foreign}))
         if r is not None and op in CIRCUIT_OPS:
             results.append((op, r))
     for name, path, desc in monitors.drain_contract_failures():
